@@ -127,7 +127,10 @@ class DependencyCache:
             DependencyCacheType.OTHER: [],
         }
         assert type_ in data, 'Someone forgot to update subkey calculations for a new type'
-        return tuple(data[type_])
+        # The type is part of the subkey: entries of different types stored for
+        # the same identifier are looked up under the option of their own type,
+        # even when the values of the two options happen to be equal.
+        return (type_.name, *data[type_])
 
     def __iter__(self) -> T.Iterator['TV_DepID']:
         return self.keys()
